@@ -795,6 +795,19 @@ func runC18(c *Ctx) {
 			cases = append(cases, c18case{list(items...), m, true}, c18case{list(rows...), m, true})
 		}
 	}
+	// keys of SIMPLE maps (scalar values only) may be written as attribute names: every ASCII character and a handful of others
+	// at the first and at a later position of an otherwise harmless key
+	for _, r := range append(func() []rune {
+		var a []rune
+		for r := rune(0x20); r < 0x7f; r++ {
+			a = append(a, r)
+		}
+		return a
+	}(), 0xb5, 0xb7, 0xaa, 0xba, 0xc0, 0xd7, 0xf7, 0x37e, 0x2028, 0x203f, 0x2040, 0x2070, 0x3001, 0xfffd, 0x10000) {
+		for _, key := range []string{"a" + string(r) + "b", string(r) + "a", "a" + string(r)} {
+			cases = append(cases, c18case{mp(key, str("1"), "plain", str("2")), 10, true})
+		}
+	}
 	if len(c.BrokenObligs()) > 0 {
 		// targeted search: every code point the escape tables could treat wrongly, as text, key and attribute
 		for r := rune(0); r < 0x500; r++ {
